@@ -848,7 +848,9 @@ func Program(t *rapid.T, o GenOpts) *MsgSpec {
 		spec.Attachments = append(spec.Attachments, file("att"))
 	}
 	if o.Boundaries && strings.Count(ExpectedShape(nParts, nEmb, nAtt), "(") == 1 && rapid.IntRange(0, 3).Draw(t, "ownboundary") == 0 {
-		spec.Boundary = rapid.SampledFrom([]string{"vErIf.BoUnDaRy_0123-xyz", "=_VerifNextPart_000_0123_01DA.ABCD", "verif'boundary(with)+specials,/:=?"}).Draw(t, "boundary")
+		spec.Boundary = rapid.SampledFrom([]string{"vErIf.BoUnDaRy_0123-xyz", "=_VerifNextPart_000_0123_01DA.ABCD", "verif'boundary(with)+specials,/:=?",
+			// lengths at which "Content-Type: multipart/...; boundary=..." on one line would pass column 78
+			"0123456789abcdef0123456789abcdef0123", "----=_NextPart_0123456789abcdef0123456789abcd", "uuid-1b4e28ba-2fa1-11d2-883f-0016d3cca427-part"}).Draw(t, "boundary")
 	}
 	spec.From = "sender@verif.example"
 	spec.To = []string{"rcpt@verif.example"}
